@@ -20,6 +20,8 @@ func main() {
 		cmdCheck(os.Args[2:])
 	case "replay":
 		cmdReplay(os.Args[2:])
+	case "selftest":
+		cmdSelftest(os.Args[2:])
 	default:
 		usage()
 	}
